@@ -834,6 +834,12 @@ def explore(ctx, ops, terminal):
                                'store.%s(%s) at %s fails with %s in cell (state=%s, id=%s): the session itself left the store in that condition earlier '
                                'in this request; the error is returned to the caller' % (t[1], ','.join(t[2]), t[5], t[3][1], t[4].split('*')[0], t[4].split('*')[1]))
                     continue
+                if opname in ('delete', 'invalidate') and env['S'] not in ('MarkedForDeletion', 'DoesNotExist'):
+                    report('%s-keeps-server-state' % opname, cell, e0, opname,
+                           '%s() returns with the server state still %s (before: state=%s, id=%s): the values the request dropped are what sync() '
+                           'will write, and what the next request reads' % (opname, env['S'], e0['S'], e0['K']))
+                if opname == 'invalidate' and not env['inv']:
+                    report('invalidate-leaves-session-valid', cell, e0, opname, 'invalidate() returns without the invalidation flag set')
                 if env.get('orphan'):
                     report('orphan-record', cell, e0, opname, env['orphan'])
                 if env.get('wrong_record'):
